@@ -6,7 +6,7 @@ CONSTANTS
   MaxOv = 3
   MinParams = 0
   MaxParams = 1
-  ParamTypes = {"int", "bool", "str", "object", "any", "int|str"}
+  ParamTypes = {"int", "str", "object", "any", "int|str"}
   ArgTypes = {"int", "bool", "str", "none", "float", "any", "int|str", "int|none", "bool|str", "int|str|none"}
   Names = {"x"}
   Kinds = {"pk"}
@@ -16,6 +16,7 @@ CONSTANTS
   MaxRet = 4
   DistinctRets = FALSE
   MaxUnionArgs = 1
+  EmitOneIn = 1
 INVARIANT PropertyHolds
 INVARIANT MachineIsOperator
 INVARIANT BinderAgrees
